@@ -312,7 +312,7 @@ var (
 	// values that can be considered to be equal.
 	epsilon = 1e-15
 	// dblEpsilon is a smaller number for values that require more precision.
-	dblEpsilon = 2.220446049e-16
+	dblEpsilon = 2.220446049250313e-16
 )
 
 // Expanded returns an interval that has been expanded on each side by margin.
